@@ -4,8 +4,9 @@ C02 — `transpose` / `insert_dimension` with `constructs=True` AND `inplace=Tru
 over the metadata constructs leaves the constructs before the failing one changed, and — when the failing
 statement is the final `set_data_axes(..., key=key)` — the failing one reshaped on its old axes.
 In a state that satisfies the invariant that final statement cannot fail for a construct with plain data
-(`transDamage_core`, `insDamage_core`); for a domain topology / cell connectivity construct with data it
-always fails in `insert_dimension` (hypothesis `NoTopoData`, open finding).
+(`transDamage_core`, `insDamage_core`); a domain topology / cell connectivity construct is left as it is by
+`insert_dimension` (fixes/C02-insert-dimension-skips-topology-constructs.patch; before, its step always failed
+after it was reshaped: `NoTopoData` describes the fields on which the code before the patch was safe).
 -/
 namespace Cfdm.Constructs
 
@@ -180,7 +181,7 @@ theorem insOne_check {s : St} (h : Core s) {axis : Key} (ha : axSize s axis = so
   rw [modelled_shape hmod]
   simp [insCon, hd]
 
-theorem insDamage_core {s : St} (h : Core s) {axis : Key} (ha : axSize s axis = some (some 1)) (hnt : NoTopoData s)
+theorem insDamage_core {s : St} (h : Core s) {axis : Key} (ha : axSize s axis = some (some 1))
     (position : Nat) (da0 : List Key) (p : CType × Key) (hn : insOne true axis position da0 s p = none) :
     insDamage true axis position da0 s p = s := by
   unfold insDamage
@@ -203,8 +204,8 @@ theorem insDamage_core {s : St} (h : Core s) {axis : Key} (ha : axSize s axis = 
           have hmod : modelled p.1 = true := by
             rcases array_cases' harr with h1 | h1 | h1
             · exact h1
-            · have := hnt p c hc (Or.inl h1); rw [hd] at this; cases this
-            · have := hnt p c hc (Or.inr h1); rw [hd] at this; cases this
+            · simp [skippedByInsert, h1] at hdim
+            · simp [skippedByInsert, h1] at hdim
           have hchk := insOne_check h ha hc hmod hd hx hpos
           unfold insOne at hn
           simp only [hc, harr, Bool.not_true, Bool.false_eq_true, ↓reduceIte, hd, hx, hcon, Bool.true_and, hdim, hmod,
@@ -346,23 +347,20 @@ theorem transposeLoop_anyOrder {s : St} (h : Core s) (order : List (CType × Key
 structure InsInv (a : Key) (st : St) : Prop where
   core : Core st
   one : axSize st a = some (some 1)
-  noTopo : NoTopoData st
 
 theorem insOne_insInv {a : Key} {position : Nat} {da0 : List Key} {st st' : St} {p : CType × Key}
     (h : InsInv a st) (hr : insOne true a position da0 st p = some st') : InsInv a st' :=
-  ⟨insOne_core h.core a position da0 p hr, by rw [axSize_of_cons (insOne_cons hr)]; exact h.one,
-   noTopo_of_cons (fun q hq => insOne_cons hr q (topo_notModelled hq)) h.noTopo⟩
+  ⟨insOne_core h.core a position da0 p hr, by rw [axSize_of_cons (insOne_cons hr)]; exact h.one⟩
 
 /-- the in-place loop of `insert_dimension(constructs=True)` keeps the invariant whatever the order in which
-the constructs are visited, provided no domain topology / cell connectivity construct has data -/
+the constructs are visited (domain topology / cell connectivity constructs are left as they are) -/
 theorem insertLoop_anyOrder {s : St} {a : Key} (h : InsInv a s) (position : Nat) (da0 : List Key)
     (order : List (CType × Key)) :
     InsInv a (foldIP (insOne true a position da0) (insDamage true a position da0) s order) :=
   foldIP_inv (InsInv a) _ _ (fun _ _ _ hb hba => insOne_insInv hb hba)
-    (fun b q hb hbq => by rw [insDamage_core hb.core hb.one hb.noTopo position da0 q hbq]; exact hb) order s h
+    (fun b q hb hbq => by rw [insDamage_core hb.core hb.one position da0 q hbq]; exact hb) order s h
 
-theorem insertDimension_core {s : St} (h : Core s) (axis : Option Key) (position : Nat) (constructs inplace : Bool)
-    (hnt : (constructs && inplace) = true → NoTopoData s) :
+theorem insertDimension_core {s : St} (h : Core s) (axis : Option Key) (position : Nat) (constructs inplace : Bool) :
     Core (insertDimension true s axis position constructs inplace).1 := by
   unfold insertDimension
   split
@@ -396,11 +394,8 @@ theorem insertDimension_core {s : St} (h : Core s) (axis : Option Key) (position
           · rename_i hip
             have hcons3 : s3.cons = s1.cons := by
               have := insertField_cons s1 a position; rw [hr] at this; exact this
-            have hnt1 : NoTopoData s1 := by
-              refine noTopo_of_cons (s := s) (fun q hq => ?_) (hnt (by simp [hip]; simpa using hcs))
-              exact insertAxisKey_cons hk q (topo_notModelled hq) (by rcases hq with e | e <;> rw [e] <;> decide)
             have hP : InsInv a s3 :=
-              ⟨hfld, by unfold axSize; rw [hcons3]; exact ha, fun q c hc hq => hnt1 q c (by rw [← hcons3]; exact hc) hq⟩
+              ⟨hfld, by unfold axSize; rw [hcons3]; exact ha⟩
             exact (insertLoop_anyOrder hP _ _ _).core
           · exact h
         | some s4 =>
